@@ -81,17 +81,36 @@ def db_entries():
     return out
 
 
-def stub_source(gen_path):
-    """/repo/_build/lib/x/y.c -> /repo/lib/x/y.stub if that exists"""
+def stub_source(gen_path, root=None):
+    """/repo/_build/lib/x/y.c -> <root>/lib/x/y.stub if that exists"""
     pre = BUILD + "/"
     if not gen_path.startswith(pre):
         return None
     rel = gen_path[len(pre):]
-    stub = os.path.join(REPO, rel[:-2] + ".stub")
+    stub = os.path.join(root or REPO, rel[:-2] + ".stub")
     return stub if os.path.exists(stub) else None
 
 
-def regenerate_stub(stub, out_c):
+def remap(path, root):
+    """a path of the compilation database seen from source root `root`"""
+    if root and root != REPO and path.startswith(REPO + "/") and not path.startswith(BUILD + "/"):
+        return root + path[len(REPO):]
+    return path
+
+
+def remap_flags(flags, root):
+    if not root or root == REPO:
+        return flags
+    out = []
+    for f in flags:
+        if f.startswith("-I") and len(f) > 2:
+            out.append("-I" + remap(f[2:], root))
+        else:
+            out.append(remap(f, root))
+    return out
+
+
+def regenerate_stub(stub, out_c, root=None):
     """Generated FFI sources are rebuilt from the .stub of the working tree with
     the repository's own generator (tools/chibi-ffi), into our scratch dir."""
     os.makedirs(os.path.dirname(out_c), exist_ok=True)
@@ -100,8 +119,8 @@ def regenerate_stub(stub, out_c):
     env["LD_LIBRARY_PATH"] = BUILD
     env["CHIBI_IGNORE_SYSTEM_PATH"] = "1"
     env["CHIBI_MODULE_PATH"] = os.path.join(BUILD, "lib") + ":" + os.path.join(REPO, "lib")
-    r = subprocess.run([exe, os.path.join(REPO, "tools", "chibi-ffi"), stub, out_c],
-                       cwd=REPO, env=env, stdout=subprocess.PIPE, stderr=subprocess.STDOUT,
+    r = subprocess.run([exe, os.path.join(root or REPO, "tools", "chibi-ffi"), stub, out_c],
+                       cwd=root or REPO, env=env, stdout=subprocess.PIPE, stderr=subprocess.STDOUT,
                        timeout=120)
     if r.returncode != 0 or not os.path.exists(out_c):
         return r.stdout.decode(errors="replace")
@@ -121,11 +140,11 @@ _programs = {}
 stats = {"units": 0, "extract_s": 0.0, "stubs_regenerated": 0}
 
 
-def load_program(config="default", only=None, extra_sources=None):
+def load_program(config="default", only=None, extra_sources=None, root=None):
     """Parse every unit of the database (or those whose basename is in `only`)
     under `config` and return a Program.  extra_sources: list of (path, flags)
     for witness files analysed with the same engine."""
-    key = (config, tuple(sorted(only)) if only else None)
+    key = (config, tuple(sorted(only)) if only else None, root)
     if key in _programs and not extra_sources:
         return _programs[key]
     ensure_tools()
@@ -138,15 +157,16 @@ def load_program(config="default", only=None, extra_sources=None):
         base = os.path.basename(f)
         if only and base not in only:
             continue
-        src = f
-        stub = stub_source(f)
+        src = remap(f, root)
+        flags = remap_flags(flags, root)
+        stub = stub_source(f, root)
         if stub:
-            src = os.path.join(sc, "gen", os.path.relpath(f, BUILD))
+            src = os.path.join(sc, "gen%d" % (abs(hash(root)) % 100000 if root else 0), os.path.relpath(f, BUILD))
             gen_needed.append((stub, src))
             flags = flags + ["-I" + os.path.dirname(stub), "-I" + os.path.dirname(f)]
-        elif not os.path.exists(f):
-            raise AnalysisBroken("source in compilation database vanished: " + f)
-        tag = os.path.relpath(f, REPO).replace("/", "__")
+        elif not os.path.exists(src):
+            raise AnalysisBroken("source in compilation database vanished: " + src)
+        tag = os.path.relpath(f, REPO).replace("/", "__") + ("" if not root else ".m%d" % (abs(hash(root)) % 100000))
         jobs.append((src, flags + CONFIGS[config], os.path.join(sc, "%s.%s.json" % (tag, config))))
     for (p, fl) in (extra_sources or []):
         tag = "extra__" + os.path.basename(p)
@@ -154,7 +174,7 @@ def load_program(config="default", only=None, extra_sources=None):
         jobs.append((p, anyflags + fl, os.path.join(sc, "%s.%s.json" % (tag, config))))
     with ThreadPoolExecutor(max_workers=16) as ex:
         gen_todo = [(s, o) for (s, o) in gen_needed if not os.path.exists(o)]
-        errs = list(ex.map(lambda so: regenerate_stub(*so), gen_todo))
+        errs = list(ex.map(lambda so: regenerate_stub(so[0], so[1], root), gen_todo))
         for (s, o), e in zip(gen_todo, errs):
             if e is not None:
                 raise AnalysisBroken("chibi-ffi failed on %s:\n%s" % (s, e))
@@ -171,17 +191,22 @@ def load_program(config="default", only=None, extra_sources=None):
         except OSError:
             pass
     # generated units report their scratch path; map back to a stable name
+    import re as _re
     for u in units:
-        if "/gen/" in u.main_file and u.main_file.startswith(sc):
-            rel = u.main_file.split("/gen/", 1)[1]
+        m = _re.match(_re.escape(sc) + r"/gen\d+/(.*)$", u.main_file)
+        if m:
+            rel = m.group(1)
             u.gen_of = rel[:-2] + ".stub"
             u.display = "_build/" + rel
         else:
             u.gen_of = None
-            u.display = os.path.relpath(u.main_file, REPO)
+            u.display = os.path.relpath(u.main_file, root or REPO)
         for fn in u.func_list:
-            if fn.file.startswith(sc):
-                fn.file = os.path.join(BUILD, fn.file.split("/gen/", 1)[1])
+            m = _re.match(_re.escape(sc) + r"/gen\d+/(.*)$", fn.file)
+            if m:
+                fn.file = os.path.join(BUILD, m.group(1))
+            elif root and fn.file.startswith(root + "/"):
+                fn.file = REPO + fn.file[len(root):]
     stats["units"] += len(units)
     stats["extract_s"] += time.time() - t0
     prog = Program(units)
